@@ -3,6 +3,7 @@
 Monitor: post-condition on the real ForSys.solve_stress (icontract) comparing what is reported at four observation points
 (forces dict, frame.forces, tension table, BigEdge / SmallEdge tension) with the analytic truth of Maxwell-reciprocal
 Voronoi tissues and their Moebius images, per physical interface."""
+import json
 import numpy as np
 
 ID = "C01"
@@ -132,13 +133,29 @@ def _install():
                         else:
                             out_of_class += 1
         c["eps"] = eps
-        if out_of_class:
-            c["skip"] = "coefficients-out-of-class"          # reported by C02, not judged here
-            return True
         M0, _rhs0 = fb.augment(A0)
         pinv_norm = 1.0 / smin
+        if out_of_class:
+            # some assembled coefficient is farther from the analytic tangent than the fit precision allows (C02 reports
+            # that per coefficient); judge end to end with the class-based first-order bound when it is informative
+            tol_class = 12 * eps * np.linalg.norm(x_true) / smin + 1e-9
+            if tol_class > 0.05 * x_true.max():
+                c["skip"] = "coefficients-out-of-class"
+                return True
+            got_ = np.array([b.tension for b in frame.internal_big_edges], float)
+            err_ = float(np.abs(got_ - x_true).max())
+            c["tol"] = tol_class
+            if err_ > tol_class:
+                mon.fail("tension", "reported tension = true tension / mean true tension of the inferred interfaces",
+                         name="BigEdge.tension", err=err_, tol=tol_class, coefficients_out_of_class=out_of_class, eps=eps,
+                         method=c["method"], fit=fit, fam=c["fam"], pose=c["pose"], resampled=c["ne"])
+            c["worst"] = 0.0
+            c["shape"] = list(A0.shape)
+            c["straddle"] = straddle
+            c["path"] = getattr(fm, "_verif", {}).get("path")
+            return True
         solver_tol = {None: 1e-9 * (1 + 1 / smin), "lsq": 1e-5 * (1 + 1 / smin),
-                      "lsq_linear": 1e-4 + 1e-10 / smin ** 4}[c["method"]]
+                      "lsq_linear": 1e-4 + 1e-9 / smin ** 4}[c["method"]]
         if straddle == 0:
             first = np.linalg.norm(dA @ x_true)
             tol = 3 * pinv_norm * first * (1 + pinv_norm * np.linalg.norm(dA, 2)) + solver_tol
@@ -197,6 +214,9 @@ def _install():
             err = np.abs(v - ref).max()
             if err <= tol:
                 worst = max(worst, err / tol)
+                if err / tol > 0.5:
+                    c["near"] = dict(name=name, ratio=float(err / tol), method=c["method"], fit=fit, smin=smin, tol=float(tol),
+                                     err=float(err), path=getattr(self.force_matrices[when], "_verif", {}).get("path"))
                 continue
             if model is not None:
                 smq, _ = fb.sigma_min_aug(A_code)
@@ -290,6 +310,8 @@ def _one(rng, fam, mon, sigs, hist, metrics):
         sigs.append([fam, len(at.cells), cur["shape"][0] // 2, cur["shape"][1], sorted(set(r.ks.values()))[:5],
                      method or "default", fit, posed["mode"], ne])
         metrics["err_over_tol"] = max(metrics.get("err_over_tol", 0.0), cur["worst"])
+        if cur.get("near"):
+            hist["near:" + json.dumps(cur["near"])[:300]] = 1
         metrics["tol_max"] = max(metrics.get("tol_max", 0.0), cur["tol"])
 
 
